@@ -40,7 +40,7 @@ def _work(job):
         return pack(res)
     except Exception:
         return {"unit": qual, "error": traceback.format_exc(), "obligations": [], "paths": 0, "outcomes": 0,
-                "demoted": None, "seconds": time.time() - t0, "solver_seconds": 0.0, "source": "", "case_cover": {},
+                "demoted": None, "seconds": time.time() - t0, "solver_seconds": 0.0, "source": "", "case_cover": {}, "code": {},
                 "infeasible": 0, "backedges": 0}
 
 
@@ -49,7 +49,7 @@ def pack(res):
         "unit": res.qualname, "source": res.source, "paths": res.paths, "outcomes": res.outcomes,
         "infeasible": res.infeasible, "backedges": res.backedges, "demoted": res.demoted, "error": res.error,
         "seconds": round(res.seconds, 3), "solver_seconds": round(res.solver_seconds, 3),
-        "case_cover": dict(res.case_cover),
+        "case_cover": dict(res.case_cover), "code": dict(getattr(res, "code", {})),
         "obligations": [{"name": o.name, "status": o.status, "seconds": round(o.seconds, 4), "backend": o.backend,
                          "model": o.model, "path": o.path, "detail": o.detail, "kind": o.kind}
                         for o in res.obligations],
@@ -101,7 +101,7 @@ def _split(job):
         return pack(res), res.pending
     except Exception:
         return {"unit": qual, "error": traceback.format_exc(), "obligations": [], "paths": 0, "outcomes": 0,
-                "demoted": None, "seconds": time.time() - t0, "solver_seconds": 0.0, "source": "", "case_cover": {},
+                "demoted": None, "seconds": time.time() - t0, "solver_seconds": 0.0, "source": "", "case_cover": {}, "code": {},
                 "infeasible": 0, "backedges": 0}, []
 
 
@@ -109,6 +109,7 @@ def merge(parts):
     out = dict(parts[0])
     out["obligations"] = list(out["obligations"])
     out["case_cover"] = dict(out["case_cover"])
+    out["code"] = dict(out.get("code", {}))
     for p in parts[1:]:
         out["obligations"].extend(p["obligations"])
         for k in ("paths", "outcomes", "infeasible", "backedges"):
@@ -119,6 +120,7 @@ def merge(parts):
         out["error"] = out.get("error") or p.get("error")
         for k, v in p["case_cover"].items():
             out["case_cover"][k] = out["case_cover"].get(k, 0) + v
+        out["code"].update(p.get("code", {}))
     return out
 
 
@@ -198,6 +200,7 @@ def run_groups(pid, groups, tier, seed):
                 undecided.append({"unit": u, "obligation": name, "path": o["path"], "why": o["detail"][-120:]})
                 # undecided by the solvers, but a candidate counterexample that REPLAYS on the real code is a
                 # demonstrated failure of a baseline-proved obligation
+                rp = None
                 if b.get(name) == "proved" and o.get("model") and o["model"].get("__candidate__"):
                     rp = try_replay(reg, u, name, o)
                     if rp:
@@ -208,6 +211,19 @@ def run_groups(pid, groups, tier, seed):
                                      "solver": "z3 (candidate model, validated by replay)", "detail": o["detail"],
                                      "replayed": rp},
                             "source": "deductive", "has_failing_input": True})
+                # A clause discharged on the baseline tree that is no longer discharged *after the code this unit
+                # executes has changed* is reported as a violation without a failing input (the weakest evidence
+                # class: "passed on the unchanged tree and now fails").  The same `unknown` on unchanged code is a
+                # solver flake and stays undecided.
+                changed = code_changes(base.get(u, {}).get("code"), r.get("code", {}))
+                if b.get(name) == "proved" and changed and not rp:
+                    violations.append({
+                        "what": "obligation %s of %s was discharged on the baseline tree and is no longer discharged "
+                                "after a change to %s (solvers: unknown within the budget; no counterexample)"
+                                % (name, u, ", ".join(changed[:6])),
+                        "case": {"unit": u, "obligation": name, "path": o["path"], "model": None,
+                                 "solver": "z3 / cvc5: unknown", "detail": o["detail"], "changed_code": changed},
+                        "source": "deductive", "has_failing_input": False})
             elif o["status"] == "refuted":
                 entry = {"unit": u, "obligation": name, "path": o["path"], "model": o["model"], "detail": o["detail"][:300],
                          "in_baseline": b.get(name) == "proved"}
@@ -232,6 +248,18 @@ def run_groups(pid, groups, tier, seed):
         "wall_seconds": round(time.time() - t0, 1),
     }
     return ded, violations, errors
+
+
+def code_changes(base_code, now_code):
+    """names of the function bodies (executed by the unit) whose AST differs from the baseline's; None / empty when
+    the baseline has no fingerprints or nothing changed"""
+    if not base_code:
+        return []
+    out = []
+    for k in sorted(set(base_code) | set(now_code)):
+        if base_code.get(k) != now_code.get(k):
+            out.append(k)
+    return out
 
 
 def try_replay(reg, unit, clause, o):
@@ -285,7 +313,7 @@ def write_baseline(properties):
                 hints[o["name"]] = o["backend"]
         out[r["unit"]] = {"clauses": {k: v["status"] for k, v in sorted(agg.items()) if v["status"] == "proved"},
                           "paths": r["paths"], "obligations": len(r["obligations"]),
-                          "backend_hints": hints}
+                          "backend_hints": hints, "code": r.get("code", {})}
         notp = [k for k, v in agg.items() if v["status"] != "proved"]
         print("%-60s %3d clauses proved, %d not proved%s" % (r["unit"], len(out[r["unit"]]["clauses"]), len(notp),
                                                              ("  DEMOTED " + r["demoted"][:80]) if r["demoted"] else ""))
